@@ -1,10 +1,11 @@
 #!/bin/bash
-# confirm every seed under /tmp/wt/Cxx-out/<n> not yet in /verif/seeded
+# confirm every seed (original if it still applies, else the rebased version) not yet in /verif/seeded
 for id in "$@"; do
   for n in 1 2 3; do
-    src=/tmp/wt/$id-out/$n
-    [ -f $src/patch.diff ] || continue
     [ -d /verif/seeded/$id-$n ] && continue
+    src=/tmp/wt/$id-out/$n
+    [ -d /tmp/wt/rebased/$id-$n ] && src=/tmp/wt/rebased/$id-$n
+    [ -f $src/patch.diff ] || continue
     /verif/bin/seed_confirm.sh $src $id-$n $id 2>&1 | tail -2
   done
 done
